@@ -2161,6 +2161,12 @@ pick:
 		break;
 	case DISPATCH_OP_ERR:
 		_dispatch_stream_cleanup_operations(stream, op->channel);
+		// operations of the other channels on this descriptor are still
+		// queued: nothing else will run the handler for them
+		if (_dispatch_stream_operation_avail(stream)) {
+			dispatch_async_f(stream->dq, stream->dq,
+					_dispatch_stream_queue_handler);
+		}
 		break;
 	case DISPATCH_OP_FD_ERR:
 		_dispatch_fd_entry_retain(fd_entry);
